@@ -147,7 +147,8 @@ theorem setIfInBounds_eq_set (a : Array Nat) (i v : Nat) (h : i < a.size) : a.se
   simp [Array.setIfInBounds, h]
 
 /-- with the index inside the array, the checked bit decoder is the executable one -/
-theorem rcBitC_eq (idx : Nat) (s : St) (h : idx < s.probs.size) : rcBitC idx s = liftR (rcBit idx s) := by
+theorem rcBitC_eq (m : Nat × Nat) (idx : Nat) (s : St) (h : idx < s.probs.size) (hm : m.1 ≤ idx ∧ idx < m.1 + m.2) :
+    rcBitC m idx s = liftR (rcBit idx s) := by
   have hp := rcNormalize_probs s
   unfold rcBitC rcBit
   cases hn : rcNormalize s with
@@ -156,7 +157,8 @@ theorem rcBitC_eq (idx : Nat) (s : St) (h : idx < s.probs.size) : rcBitC idx s =
     rw [hn] at hp
     have hp' : s1.probs = s.probs := hp
     have h1 : idx < s1.probs.size := by rw [hp']; exact h
-    simp only [h1, dite_true, liftR, St.setProb, getD_eq_getElem _ _ h1, setIfInBounds_eq_set _ _ _ h1]
+    have h1m : idx < s1.probs.size ∧ m.1 ≤ idx ∧ idx < m.1 + m.2 := ⟨h1, hm⟩
+    simp only [dif_pos h1m, liftR, St.setProb, getD_eq_getElem _ _ h1, setIfInBounds_eq_set _ _ _ h1]
 
 theorem rcBit_size (idx : Nat) (s : St) : (resSt (rcBit idx s)).probs.size = s.probs.size := by
   have hp := rcNormalize_probs s
@@ -168,10 +170,11 @@ theorem rcBit_size (idx : Nat) (s : St) : (resSt (rcBit idx s)).probs.size = s.p
     simp only [resSt, St.setProb, Array.size_setIfInBounds]
     rw [show s1.probs = s.probs from hp]
 
-theorem sim_rcBit {K : SCtx} {G : St → Prop} (hG : Stable G) (idx : Nat) (h : idx < K.n) :
-    Sim (fun s => Stat K s ∧ G s) (rcBit idx) (rcBitC idx) (fun b s' => (Stat K s' ∧ G s') ∧ b ≤ 1) := by
+theorem sim_rcBit {K : SCtx} {G : St → Prop} (hG : Stable G) (m : Nat × Nat) (idx : Nat) (h : idx < K.n)
+    (hm : m.1 ≤ idx ∧ idx < m.1 + m.2) :
+    Sim (fun s => Stat K s ∧ G s) (rcBit idx) (rcBitC m idx) (fun b s' => (Stat K s' ∧ G s') ∧ b ≤ 1) := by
   intro s hp
-  refine ⟨rcBitC_eq idx s (by rw [hp.1.1]; exact h), ?_⟩
+  refine ⟨rcBitC_eq m idx s (by rw [hp.1.1]; exact h) hm, ?_⟩
   intro b s' e
   have hs := satc_rcBit idx s
   have hz := rcBit_size idx s
@@ -183,9 +186,10 @@ theorem sim_rcBit {K : SCtx} {G : St → Prop} (hG : Stable G) (idx : Nat) (h : 
 /-- a bit tree of `k` levels from node `sym` inside a row of `W` probabilities at `base`: every node read is
     `< W` (hypothesis `(sym + 1) · 2^k ≤ 2·W`: the nodes of the last level are `< (sym + 1) · 2^(k−1)`), and the result
     lies in `[sym · 2^k, (sym + 1) · 2^k)`. -/
-theorem sim_bittree {K : SCtx} {G : St → Prop} (hG : Stable G) (base W : Nat) (hW : base + W ≤ K.n) :
+theorem sim_bittree {K : SCtx} {G : St → Prop} (hG : Stable G) (m : Nat × Nat) (base W : Nat) (hW : base + W ≤ K.n)
+    (hm : m.1 ≤ base ∧ base + W ≤ m.1 + m.2) :
     ∀ k sym, (sym + 1) * 2 ^ k ≤ 2 * W →
-      Sim (fun s => Stat K s ∧ G s) (bittree base k sym) (bittreeC base k sym)
+      Sim (fun s => Stat K s ∧ G s) (bittree base k sym) (bittreeC m base k sym)
         (fun r s' => (Stat K s' ∧ G s') ∧ sym * 2 ^ k ≤ r ∧ r < (sym + 1) * 2 ^ k)
   | 0, sym, _ => Sim.pure sym (fun _ h => ⟨h, by simp⟩)
   | k + 1, sym, hk => by
@@ -197,7 +201,7 @@ theorem sim_bittree {K : SCtx} {G : St → Prop} (hG : Stable G) (base W : Nat) 
       have e : (sym + 1) * (2 ^ k * 2) = 2 * ((sym + 1) * 2 ^ k) := by
         rw [Nat.mul_comm (2 ^ k) 2, ← Nat.mul_assoc, Nat.mul_comm (sym + 1) 2, Nat.mul_assoc]
       omega
-    refine Sim.bind (sim_rcBit hG _ (by omega)) (fun b => ?_)
+    refine Sim.bind (sim_rcBit hG m _ (by omega) (by omega)) (fun b => ?_)
     intro s hp
     have hb : b ≤ 1 := hp.2
     have e1 : (sym + 1) * 2 ^ (k + 1) = ((sym + 1) * 2) * 2 ^ k := by
@@ -207,13 +211,14 @@ theorem sim_bittree {K : SCtx} {G : St → Prop} (hG : Stable G) (base W : Nat) 
     have hup : (sym * 2 + b + 1) * 2 ^ k ≤ ((sym + 1) * 2) * 2 ^ k := Nat.mul_le_mul_right _ (by omega)
     have hlo : (sym * 2) * 2 ^ k ≤ (sym * 2 + b) * 2 ^ k := Nat.mul_le_mul_right _ (by omega)
     have hk' : (sym * 2 + b + 1) * 2 ^ k ≤ 2 * W := by rw [e1] at hk; omega
-    have ih := sim_bittree hG base W hW k _ hk' s hp.1
+    have ih := sim_bittree hG m base W hW hm k _ hk' s hp.1
     refine ⟨ih.1, fun r s' e => ?_⟩
     obtain ⟨i1, i2, i3⟩ := ih.2 r s' e
     exact ⟨i1, by rw [e2]; omega, by rw [e1]; omega⟩
 
 /-- matched literal: `offset ∈ {0, 0x100}`, nodes `offset + match_bit + symbol < 0x300` -/
-theorem sim_litMatched {K : SCtx} {G : St → Prop} (hG : Stable G) (base : Nat) (hW : base + LITERAL_CODER_SIZE ≤ K.n) :
+theorem sim_litMatched {K : SCtx} {G : St → Prop} (hG : Stable G) (base : Nat) (hW : base + LITERAL_CODER_SIZE ≤ K.n)
+    (hmem : P_LITERAL ≤ base ∧ base + LITERAL_CODER_SIZE ≤ P_LITERAL + LITERAL_CODER_SIZE <<< LZMA_LCLP_MAX) :
     ∀ k sym offset len, (sym + 1) * 2 ^ k ≤ 2 * 0x100 → (offset = 0 ∨ offset = 0x100) →
       Sim (fun s => Stat K s ∧ G s) (litMatched base k sym offset len) (litMatchedC base k sym offset len)
         (fun _ s' => Stat K s' ∧ G s')
@@ -229,7 +234,8 @@ theorem sim_litMatched {K : SCtx} {G : St → Prop} (hG : Stable G) (base : Nat)
       omega
     have hm := matchedLit_idx offset len sym ho hlt
     simp only []
-    refine Sim.bind (sim_rcBit hG _ (by have := hm.1; simp only [LITERAL_CODER_SIZE] at hW this; omega)) (fun b => ?_)
+    refine Sim.bind (sim_rcBit hG M_LITERAL _ (by have := hm.1; simp only [LITERAL_CODER_SIZE] at hW this; omega)
+      (by have := hm.1; have h1 := hmem.1; have h2 := hmem.2; simp only [LITERAL_CODER_SIZE] at h2 this ⊢; omega)) (fun b => ?_)
     intro s hp
     have hb : b ≤ 1 := hp.2
     have hk' : (sym * 2 + b + 1) * 2 ^ k ≤ 2 * 0x100 := by
@@ -247,10 +253,11 @@ theorem sim_litMatched {K : SCtx} {G : St → Prop} (hG : Stable G) (base : Nat)
         · rcases ho with ho | ho
           · left; rw [h, ho]
           · right; rw [h, ho]
-    exact sim_litMatched hG base hW k _ _ _ hk' ho' s hp.1
+    exact sim_litMatched hG base hW hmem k _ _ _ hk' ho' s hp.1
 
 /-- reverse bit tree of SEQ_DIST_MODEL: nodes `1 ≤ m < 2^limit` relative to `base` -/
-theorem sim_revBittree {K : SCtx} {G : St → Prop} (hG : Stable G) (base B : Nat) (hB : ∀ m, 1 ≤ m → m < B → base + m < K.n) :
+theorem sim_revBittree {K : SCtx} {G : St → Prop} (hG : Stable G) (base B : Nat)
+    (hB : ∀ m, 1 ≤ m → m < B → base + m < K.n ∧ P_POS_SPECIAL ≤ base + m ∧ base + m < P_POS_SPECIAL + (FULL_DISTANCES - DIST_MODEL_END)) :
     ∀ k sym offset acc, 1 ≤ sym → (sym + 1) * 2 ^ k ≤ 2 * B →
       Sim (fun s => Stat K s ∧ G s) (revBittree base k sym offset acc) (revBittreeC base k sym offset acc)
         (fun _ s' => Stat K s' ∧ G s')
@@ -264,7 +271,7 @@ theorem sim_revBittree {K : SCtx} {G : St → Prop} (hG : Stable G) (base B : Na
       have e : (sym + 1) * (2 ^ k * 2) = 2 * ((sym + 1) * 2 ^ k) := by
         rw [Nat.mul_comm (2 ^ k) 2, ← Nat.mul_assoc, Nat.mul_comm (sym + 1) 2, Nat.mul_assoc]
       omega
-    refine Sim.bind (sim_rcBit hG _ (hB sym h1 hlt)) (fun b => ?_)
+    refine Sim.bind (sim_rcBit hG M_POS_SPECIAL _ (hB sym h1 hlt).1 (hB sym h1 hlt).2) (fun b => ?_)
     intro s hp
     have hb : b ≤ 1 := hp.2
     have hk' : (sym * 2 + b + 1) * 2 ^ k ≤ 2 * B := by
@@ -284,7 +291,7 @@ theorem sim_revAlign {K : SCtx} {G : St → Prop} (hG : Stable G) (hn : P_MATCH_
     unfold revAlign revAlignC
     have ho4 : offset = 1 ∨ offset = 2 ∨ offset = 4 ∨ offset = 8 := by omega
     have hi := (posAlign_idx offset sym ho4 hs).1
-    refine Sim.bind (sim_rcBit hG _ (by omega)) (fun b => ?_)
+    refine Sim.bind (sim_rcBit hG M_POS_ALIGN _ (by omega) (by simp only [P_POS_ALIGN, P_MATCH_LEN, ALIGN_SIZE] at *; omega)) (fun b => ?_)
     intro s hp
     have hb : b ≤ 1 := hp.2
     have hs' : sym + b * offset < offset * 2 := by
@@ -309,24 +316,29 @@ theorem sim_lenDecode {K : SCtx} {G : St → Prop} (hG : Stable G) (hn : P_LITER
   have hend : lenBase + LEN_CODER_SIZE ≤ K.n := by
     rcases hb with h | h <;> rw [h] <;> simp only [P_MATCH_LEN, P_REP_LEN, LEN_CODER_SIZE, P_LITERAL] at * <;> omega
   unfold lenDecode lenDecodeC
-  refine Sim.bind (sim_rcBit hG _ (by simp only [LEN_CHOICE, LEN_CODER_SIZE] at *; omega)) (fun c => ?_)
+  refine Sim.bind (sim_rcBit hG _ _ (by simp only [LEN_CHOICE, LEN_CODER_SIZE] at *; omega) (by simp)) (fun c => ?_)
   refine Sim.weaken (P := fun s => Stat K s ∧ G s) ?_ (fun s h => h.1) (fun _ _ h => h)
   split
-  · refine Sim.bind (sim_bittree hG _ LEN_LOW_SYMBOLS ?_ 3 1 (by decide)) (fun s => Sim.pure _ (fun _ h => ⟨h.1, ?_⟩))
+  · refine Sim.bind (sim_bittree hG _ _ LEN_LOW_SYMBOLS ?_ ?_ 3 1 (by decide)) (fun s => Sim.pure _ (fun _ h => ⟨h.1, ?_⟩))
     · have := hl.2.2.1 7 (by decide)
       simp only [LEN_LOW, LEN_MID, LEN_LOW_SYMBOLS, LEN_CODER_SIZE] at *; omega
+    · have := hl.2.2.1 7 (by decide)
+      simp only [LEN_LOW, LEN_MID, LEN_LOW_SYMBOLS, POS_STATES_MAX] at *; omega
     · have := h.2
       simp only [MATCH_LEN_MIN, LEN_LOW_SYMBOLS, LzDict.MATCH_LEN_MAX] at *; omega
-  · refine Sim.bind (sim_rcBit hG _ (by simp only [LEN_CHOICE2, LEN_CODER_SIZE] at *; omega)) (fun c2 => ?_)
+  · refine Sim.bind (sim_rcBit hG _ _ (by simp only [LEN_CHOICE2, LEN_CODER_SIZE] at *; omega) (by simp)) (fun c2 => ?_)
     refine Sim.weaken (P := fun s => Stat K s ∧ G s) ?_ (fun s h => h.1) (fun _ _ h => h)
     split
-    · refine Sim.bind (sim_bittree hG _ LEN_MID_SYMBOLS ?_ 3 1 (by decide)) (fun s => Sim.pure _ (fun _ h => ⟨h.1, ?_⟩))
+    · refine Sim.bind (sim_bittree hG _ _ LEN_MID_SYMBOLS ?_ ?_ 3 1 (by decide)) (fun s => Sim.pure _ (fun _ h => ⟨h.1, ?_⟩))
       · have := hl.2.2.2.1 7 (by decide)
         simp only [LEN_HIGH, LEN_MID, LEN_MID_SYMBOLS, LEN_CODER_SIZE] at *; omega
+      · have := hl.2.2.2.1 7 (by decide)
+        simp only [LEN_HIGH, LEN_MID, LEN_MID_SYMBOLS, POS_STATES_MAX] at *; omega
       · have := h.2
         simp only [MATCH_LEN_MIN, LEN_LOW_SYMBOLS, LEN_MID_SYMBOLS, LzDict.MATCH_LEN_MAX] at *; omega
-    · refine Sim.bind (sim_bittree hG _ LEN_HIGH_SYMBOLS ?_ 8 1 (by decide)) (fun s => Sim.pure _ (fun _ h => ⟨h.1, ?_⟩))
+    · refine Sim.bind (sim_bittree hG _ _ LEN_HIGH_SYMBOLS ?_ ?_ 8 1 (by decide)) (fun s => Sim.pure _ (fun _ h => ⟨h.1, ?_⟩))
       · simp only [LEN_HIGH, LEN_HIGH_SYMBOLS, LEN_CODER_SIZE] at *; omega
+      · simp
       · have := h.2
         simp only [MATCH_LEN_MIN, LEN_LOW_SYMBOLS, LEN_MID_SYMBOLS, LEN_HIGH_SYMBOLS, LzDict.MATCH_LEN_MAX] at *; omega
 
@@ -338,9 +350,11 @@ theorem pow_limit_le (slot : Nat) (h : slot < 14) : 2 ^ ((slot >>> 1) - 1) ≤ 3
 theorem sim_distDecode {K : SCtx} {G : St → Prop} (hG : Stable G) (hn : P_LITERAL ≤ K.n) (len : Nat) :
     Sim (fun s => Stat K s ∧ G s) (distDecode len) (distDecodeC len) (fun _ s' => Stat K s' ∧ G s') := by
   unfold distDecode distDecodeC
-  refine Sim.bind (sim_bittree hG _ DIST_SLOTS ?_ 6 1 (by decide)) (fun slot1 => ?_)
+  refine Sim.bind (sim_bittree hG _ _ DIST_SLOTS ?_ ?_ 6 1 (by decide)) (fun slot1 => ?_)
   · have := distSlot_idx len 63 (by decide)
     simp only [P_DIST_SLOT, DIST_SLOTS, P_POS_SPECIAL, P_LITERAL] at *; omega
+  · have := distSlot_idx len 63 (by decide)
+    simp only [P_DIST_SLOT, DIST_SLOTS, P_POS_SPECIAL, DIST_STATES] at *; omega
   refine Sim.weaken (P := fun s => Stat K s ∧ G s) ?_ (fun s h => h.1) (fun _ _ h => h)
   simp only []
   split
@@ -353,8 +367,11 @@ theorem sim_distDecode {K : SCtx} {G : St → Prop} (hG : Stable G) (hn : P_LITE
       refine sim_revBittree hG _ (2 ^ (((slot1 - DIST_SLOTS) >>> 1) - 1)) ?_ _ 1 0 _ (Nat.le_refl 1) ?_
       · intro m hm1 hm2
         have hm32 : m < 32 := Nat.lt_of_lt_of_le hm2 (pow_limit_le _ hslot)
-        have := (posSpecial_idx (slot1 - DIST_SLOTS) hslot m hm32 ⟨h4', hm1, hm2⟩).2.2.1
-        simp only [P_POS_ALIGN, P_LITERAL] at *; omega
+        have hps := posSpecial_idx (slot1 - DIST_SLOTS) hslot m hm32 ⟨h4', hm1, hm2⟩
+        have := hps.2.2.1
+        have hlo := hps.2.2.2
+        simp only [P_POS_ALIGN, P_LITERAL, P_POS_SPECIAL, FULL_DISTANCES, DIST_MODEL_END] at *
+        refine ⟨by omega, ?_, ?_⟩ <;> omega
       · omega
     · refine Sim.bind (Sim.liftRc hG _ (satc_rcDirect _ _) (rcDirect_probs _ _)) (fun r => ?_)
       refine Sim.weaken (P := fun s => Stat K s ∧ G s) ?_ (fun s h => h.1) (fun _ _ h => h)
